@@ -191,7 +191,7 @@ V('C05-neighbour-shape', 'C05', SJ, "            right_shape = right_geom[i]", "
 V('C05-right-key-const', 'C05', SJ, "            right_inds[i] = np.full(len(intersecting_inds), i)", "            right_inds[i] = np.full(len(intersecting_inds), 0)", rule='C05.b')
 V('C05-left-chain-inner-merge', 'C05', SJ, "            left_df.merge(\n                result, left_index=True, right_index=True, how=\"left\"\n            ).merge(", "            left_df.merge(\n                result, left_index=True, right_index=True\n            ).merge(", rule='C05.c')
 V('C05-left-chain-second-inner', 'C05', SJ, "                right_df.drop(right_df.geometry.name, axis=1),\n                how=\"left\",", "                right_df.drop(right_df.geometry.name, axis=1),\n                how=\"inner\",", rule='C05.c')
-V('C05-inner-chain-outer', 'C05', SJ, "            left_df.merge(\n                result, left_index=True, right_index=True\n            ).merge(", "            left_df.merge(\n                result, left_index=True, right_index=True, how=\"outer\"\n            ).merge(", rule='C05.c')
+V('C05-inner-chain-outer', 'C05', SJ, "            left_df.merge(\n                result, left_index=True, right_index=True\n            ).merge(", "            left_df.merge(\n                result, left_index=True, right_index=True, how=\"outer\"\n            ).merge(", expect='silent')  # outer-then-inner is still an inner join at outcome level
 V('C05-right-chain-suffix-swap', 'C05', SJ, "                right_on=\"_key_left\",\n                suffixes=(f\"_{lsuffix}\", f\"_{rsuffix}\"),", "                right_on=\"_key_left\",\n                suffixes=(f\"_{rsuffix}\", f\"_{lsuffix}\"),", rule='C05.c')
 V('C05-right-chain-key-swap', 'C05', SJ, "                    right_df, left_on=\"_key_right\", right_index=True, how=\"right\"", "                    right_df, left_on=\"_key_left\", right_index=True, how=\"right\"", rule='C05.c')
 V('C05-right-chain-inner', 'C05', SJ, "                    right_df, left_on=\"_key_right\", right_index=True, how=\"right\"", "                    right_df, left_on=\"_key_right\", right_index=True, how=\"inner\"", rule='C05.c')
